@@ -328,6 +328,8 @@ func (v V) Build(rec *Recorder) interface{} {
 		return map[string]int(nil)
 	case "nilS":
 		return (*S2)(nil)
+	case "niltime":
+		return (*time.Time)(nil)
 	case "func":
 		return v.F.Build(rec)
 	}
